@@ -827,3 +827,23 @@ Lemma example_verify :
   let r2 := verify ex_sig (fun _ => None) ex_leaf (ex_opts 450) in
   r_current r2 = [] /\ map (map c_fp) (r_expired r2) = [[3; 2; 1]]%N /\ r_err r2 = Some EExpired.
 Proof. vm_compute. repeat split. Qed.
+
+(* the memo table keyed by intermediate index: the leaf has two parents A, A' (same name and key);
+   A <- C <- R and A' <- D <- C <- R.  The chain through A', D is lost and the one through A is
+   returned twice (sound, incomplete; inherited behaviour, documented) *)
+Definition mk_ca (fp subj iss spki : N) : cert :=
+  mkCert fp subj iss spki None None 3 true true (-1) 0 true false [] 0 100 600 false false [] [] [].
+Definition memo_R := mk_ca 1 10 10 100.
+Definition memo_C := mk_ca 2 12 10 102.
+Definition memo_A := mk_ca 3 11 12 101.
+Definition memo_D := mk_ca 4 13 12 103.
+Definition memo_A' := mk_ca 5 11 13 101.
+Definition memo_L : cert :=
+  mkCert 6 20 11 120 None None 3 true false (-1) 0 true false [] 0 100 600 false false [] [] [].
+Definition memo_sig (c p : cert) : bool :=
+  sig_mem [(1, 1); (2, 1); (3, 2); (4, 2); (5, 4); (6, 3); (6, 5)]%N (c_fp c) (c_fp p).
+Lemma example_memo :
+  let r := verify memo_sig (fun _ => None) memo_L
+                  (mkOptions [memo_R] [memo_C; memo_A; memo_D; memo_A'] 300 [] []) in
+  map (map c_fp) (r_current r) = [[6; 3; 2; 1]; [6; 3; 2; 1]]%N /\ r_err r = None.
+Proof. vm_compute. split; reflexivity. Qed.
